@@ -14,6 +14,7 @@ import re
 import cbgen, cbgen_cpp
 
 CT = cbgen_cpp.CPPTYPE
+PTRS = ("ptr", "vptr", "cvptr")
 CONT_T = {"Box": "CBox<void>", "Mut": "void *", "Ref": "const void *"}
 CTX_T = {"Arc": "CArc<void>", "none": "void"}
 
@@ -92,8 +93,8 @@ def gen(model, header_text):
                         fmt.append("[%d,%lld,%d]"); vals.append("a%d.x, (long long)a%d.y, (int)a%d.z" % (i, i, i))
                     elif t == "slice":
                         fmt.append("[%d,%llu]"); vals.append("(int)(a%d.data - SBUF), (unsigned long long)a%d.len" % (i, i))
-                    elif t == "ptr":
-                        fmt.append("%d"); vals.append("(int)(a%d - SBUF)" % i)
+                    elif t in PTRS:
+                        fmt.append("%d"); vals.append("(int)((const unsigned char *)a%d - SBUF)" % i)
                     elif t in cbgen.CB_ELEM:
                         fmt.append("[%d,%d]"); vals.append("(int)(a%d.context == (void *)&CBX), (int)(a%d.func == mock_cb_%s)" % (i, i, cbgen.CB_ELEM[t][0]))
                     elif t == "fnptr":
@@ -107,11 +108,13 @@ def gen(model, header_text):
                     if ctx == "Arc":
                         body.append("    if (cont.context.drop_fn) cont.context.drop_fn(cont.context.instance);")
                 uid = ti * 100 + len(rvals)
-                rvals[(ti, tr, m["name"])] = {"void": [], "u64": [7000 + uid], "i32": [300 + uid], "Pt": [11 + uid, 1000 + uid, 5], "cont": [1, 1, 1]}[m["ret"]]
+                rvals[(ti, tr, m["name"])] = {"void": [], "u64": [7000 + uid], "i32": [300 + uid], "Pt": [11 + uid, 1000 + uid, 5], "cont": [1, 1, 1],
+                                                    "ptr": [1 + uid % 7], "vptr": [1 + uid % 7], "cvptr": [1 + uid % 7]}[m["ret"]]
                 newc = "    { C%d r = *cont; r.instance%s = &INST2;%s%s return r; }" % (
                     ti, ".instance" if cont == "Box" else "", " r.instance.drop_fn = 0;" if cont == "Box" else "",
                     " r.context.clone_fn = 0; r.context.drop_fn = 0;" if ctx == "Arc" else "")
                 rv = {"void": "", "u64": "    return %dULL;" % (7000 + uid), "i32": "    return %d;" % (300 + uid),
+                      "ptr": "    return SBUF + %d;" % (1 + uid % 7), "vptr": "    return (void *)(SBUF + %d);" % (1 + uid % 7), "cvptr": "    return (const void *)(SBUF + %d);" % (1 + uid % 7),
                       "Pt": "    { Pt r; r.x = %d; r.y = %d; r.z = %d; return r; }" % (11 + uid, 1000 + uid, 5), "cont": newc}[m["ret"]]
                 c.append("static %s %s(%s%s) {\n%s\n%s\n}\n" % (ret, fn, recv, args, "\n".join(body), rv))
         for tr in trs:
@@ -180,8 +183,8 @@ def gen(model, header_text):
                         argv.append("mkpt(%d, %d, %d)" % (3 + i, -40 - i, 9)); sent.append([3 + i, -40 - i, 9])
                     elif t == "slice":
                         argv.append("CSliceRef<uint8_t>((const char *)SBUF + %d, %d)" % (i + 1, 4)); sent.append([i + 1, 4])
-                    elif t == "ptr":
-                        argv.append("SBUF + %d" % (i + 2)); sent.append(i + 2)
+                    elif t in PTRS:
+                        argv.append("(%s)(SBUF + %d)" % (CT[t], i + 2)); sent.append(i + 2)
                     elif t in cbgen.CB_ELEM:
                         argv.append("mkcb_%s()" % cbgen.CB_ELEM[t][0]); sent.append([1, 1])
                     elif t == "fnptr":
@@ -191,13 +194,14 @@ def gen(model, header_text):
                 recvx = "std::move(o)." if m["recv"] == "own" else "o."
                 call = "%s%s(%s)" % (recvx, name, ", ".join(argv))
                 retdecl = {"void": "", "Pt": "    Pt r; memset(&r, 0, sizeof(r));", "u64": "    unsigned long long r = 0;", "i32": "    unsigned long long r = 0;",
+                           "ptr": "    unsigned long long r = 0;", "vptr": "    unsigned long long r = 0;", "cvptr": "    unsigned long long r = 0;",
                            "cont": "    int r0 = 0, r1 = 0, r2 = 0;"}[m["ret"]]
                 vt_ok = "rr.vtbl == o.vtbl" if kind == "obj" else " && ".join("rr.vtbl_%s == o.vtbl_%s" % (t.lower(), t.lower()) for t in trs)
                 retprint = {"cont": '    printf("{\\"ev\\":\\"ret\\",\\"k\\":%d,\\"val\\":[%%d,%%d,%%d]}\\n", r0, r1, r2);' % k, "void": '    printf("{\\"ev\\":\\"ret\\",\\"k\\":%d,\\"val\\":[]}\\n");' % k,
                             "Pt": '    printf("{\\"ev\\":\\"ret\\",\\"k\\":%d,\\"val\\":[%%d,%%lld,%%d]}\\n", r.x, (long long)r.y, (int)r.z);' % k}.get(
                                 m["ret"], '    printf("{\\"ev\\":\\"ret\\",\\"k\\":%d,\\"val\\":[%%llu]}\\n", r);' % k)
                 assign = ("    { O%d rr = %s; r0 = (int)(%s); r1 = (int)(rr.container.instance%s == (void *)&INST2); r2 = (int)(%s); }" % (
-                    ti, call, vt_ok, ".instance" if cont == "Box" else "", "rr.container.context.instance == (const void *)&CTXV" if ctx == "Arc" else "1")) if m["ret"] == "cont" else ("    %s;" % call) if m["ret"] == "void" else ("    r = (unsigned long long)%s;" % call if m["ret"] != "Pt" else "    r = %s;" % call)
+                    ti, call, vt_ok, ".instance" if cont == "Box" else "", "rr.container.context.instance == (const void *)&CTXV" if ctx == "Arc" else "1")) if m["ret"] == "cont" else ("    %s;" % call) if m["ret"] == "void" else ("    r = (unsigned long long)((const unsigned char *)%s - SBUF);" % call if m["ret"] in PTRS else "    r = (unsigned long long)%s;" % call if m["ret"] != "Pt" else "    r = %s;" % call)
                 blk = ["  {", retdecl, "  {", mkobj("o"), "    EXPECT_CONT = &o.container;", '    printf("{\\"ev\\":\\"call\\",\\"k\\":%d}\\n");' % k, assign]
                 if m["recv"] == "own":
                     # returned only when the moved-from object is gone
